@@ -59,6 +59,17 @@ Proof. exists [Track 1 idA rA], rA. eexists. split; [reflexivity|]. intros op H.
 Example ex_view_expired_not_visible : lookup idD v1 = None /\ lookup idC v1 = None /\ lookup idD v2 <> None.
 Proof. vm_compute. repeat split; discriminate. Qed.
 
+Example ex_not_live :
+  ~ validated_live ops_ex 1 idD /\ ~ validated_live ops_ex 1 idC /\ ~ validated_live ops_ex 2 idA /\
+  validated_live ops_ex 2 idD /\ validated_live ops_ex 1 minB.
+Proof.
+  rewrite !C02_validated_live_decidable. vm_compute. repeat split; try discriminate; reflexivity.
+Qed.
+Example ex_never_found_applies : forall r c, wrap_min (get_regs (run ops_ex) 1) (idD ++ [1]) <> Found r c.
+Proof.
+  apply C02_not_registered_never_found_min. rewrite C02_validated_live_decidable. vm_compute. discriminate.
+Qed.
+
 (* ---- min: genuine, other phantom, unvalidated, expired, truncated, one byte altered *)
 Definition set_valid_true (r : reginfo) := set_valid true r.
 Example ex_min_found : wrap_min v1 (minB ++ [1; 2; 3]) = Found (set_valid_true rB) 32.
